@@ -293,6 +293,10 @@ func c08Menu(thorough bool) []c08Input {
 	for _, v := range append(values, struct{ kind, v string }{"unknown", `"nosuchcommand"`}) {
 		add("json-command-"+v.kind, "ERROR", "json command="+v.v, fmt.Sprintf(`{"command":%s}`, v.v))
 	}
+	// names of status fields: unknown, mixed with known ones, empty, repeated, wrong case
+	for i, rf := range []string{`["NoSuchField"]`, `["NodeID","NoSuchField"]`, `["NoSuchField","NodeID"]`, `[""]`, `["NodeID","NodeID"]`, `["nodeid"]`, `["NodeID ",""," Connections"]`} {
+		add(fmt.Sprintf("json-status-fieldnames-%d", i), "reply", "json status requested_fields="+rf, `{"command":"status","requested_fields":`+rf+`}`)
+	}
 	add("json-no-command", "ERROR", "json without command", `{"target":"n1"}`)
 	add("json-empty-object", "ERROR", "json {}", `{}`)
 	add("json-truncated", "ERROR", "json truncated", `{"command":"status"`)
